@@ -121,3 +121,12 @@ CASES += [
     {"name": "every failure of the temperature look-up is 'no temperature' (the repaired defect)", "kind": "mutant", "rule": "C14-N", "edits": [
         (_SBI14, "            if len(temps) > 1:\n                raise Exception(\"Temperature of the bath is not consistent: \"\n                                +str(temps))\n", "", 1)]},
 ]
+
+_M14 = "quantarhei/core/managers.py"
+CASES += [
+    {"name": "nested contexts: stacked transformations multiplied in the wrong order (seeded change of round 9, filed under C08)",
+     "kind": "mutant", "rule": "C14-O", "edits": [
+        (_M14, "                    SS = numpy.dot(ZZ,SS)                ", "                    SS = numpy.dot(SS,ZZ)                ", 1)]},
+    {"name": "nested contexts: the same product written with @", "kind": "twin", "edits": [
+        (_M14, "                    SS = numpy.dot(ZZ,SS)                ", "                    SS = ZZ @ SS", 1)]},
+]
